@@ -42,7 +42,12 @@ def make_funcs(spec, seed=1):
     funcs = []
     for k, t in enumerate(spec["tasks"]):
         n = t["nout"]
-        if n == 1:
+        if n == 1 and (k + seed) % 5 == 0:
+            # an ordinary function that hands back a generator a helper built (not a generator function itself):
+            # the runner iterates it and takes the single yielded value
+            def f(*args, _k=k, **kwargs):
+                return (v for v in [wrap(("T", _k, 0, args, tuple(sorted(kwargs.items()))), (_k + seed) % 4)])
+        elif n == 1:
             def f(*args, _k=k, **kwargs):
                 return wrap(("T", _k, 0, args, tuple(sorted(kwargs.items()))), (_k + seed) % 4)
         else:
